@@ -20,8 +20,9 @@ from harness import tlc, core, trace
 DIRS = ["timingsource"]
 PROPS = ["BPMS", "STOPS", "DELAYS", "TIMESIGNATURES", "TICKCOUNTS", "COMBOS", "WARPS", "SPEEDS", "SCROLLS", "FAKES", "LABELS"]
 VER_TEXT = {1: None, 2: "", 69: "0.69", 70: "0.7", 7000: "0.70", 83: "0.83", 100: "1.0"}
-S_VAL = {"BPMS": ["0.000=100.000", "0.000=100.000,4.000=150.000", "0.000=100.000,4.000=100.000"], "STOPS": "1.000=0.100", "DELAYS": "2.000=0.200", "WARPS": "3.000=0.300"}
-C_VAL = {"BPMS": ["0.000=200.000", "0.000=200.000,4.000=250.000,8.000=300.000", "0.000=200.000,4.000=200.000,8.000=200.00"], "STOPS": "1.000=0.500", "DELAYS": "2.000=0.600", "WARPS": "3.000=0.700",
+S_VAL = {"BPMS": ["0.000=100.000", "0.000=100.000,4.000=150.000", "0.000=100.000,4.000=100.000", "0.000=100.000,4.000=180.000,4.000=150.000"], "STOPS": "1.000=0.100", "DELAYS": "2.000=0.200", "WARPS": "3.000=0.300"}
+C_VAL = {"BPMS": ["0.000=200.000", "0.000=200.000,4.000=250.000,8.000=300.000", "0.000=200.000,4.000=200.000,8.000=200.00",
+                 "0.000=200.000,8.000=390.000,8.004=300.000,8.000=250.000"], "STOPS": "1.000=0.500", "DELAYS": "2.000=0.600", "WARPS": "3.000=0.700",
          "TIMESIGNATURES": "0.000=3=4", "TICKCOUNTS": "0.000=2", "COMBOS": "0.000=2", "SPEEDS": "0.000=2.000=0.000=0", "SCROLLS": "0.000=2.000",
          "FAKES": "1.000=1.000", "LABELS": "0.000=x"}
 OFF = {"s": "0.111", "c": "0.999"}
@@ -31,6 +32,8 @@ def bidx(cfg, side):
     """which BPMS text a side carries: one change, several, or several with EQUAL values (cfg["eqb"])"""
     if cfg["nb"][side] == 1:
         return 0
+    if cfg.get("dupb"):
+        return 3            # several changes, two or three of them on ONE tick: the displayed range is still the min / max of all values
     return 2 if cfg.get("eqb") else 1
 
 
@@ -389,7 +392,7 @@ def run(ctx):
                "db": {"s": rng.choice(["absent", "empty", "one", "two", "star", "three", "junk", "junkcolon"]),
                       "c": rng.choice(["absent", "empty", "one", "two", "star", "three", "junk", "junkcolon"])},
                "nb": {"s": rng.choice([1, 2]), "c": rng.choice([1, 3])}, "ignore": rng.random() < 0.3, "replica": False,
-               "eqb": rng.random() < 0.25}
+               "eqb": rng.random() < 0.25, "dupb": rng.random() < 0.15}
         how = rng.random()
         if how < 0.15 and cfg["chart"] == "ssc":
             # the chart repeats the song's timing (lists non-empty on both sides), OFFSET / DISPLAYBPM differ
